@@ -73,7 +73,7 @@ std::string Exp::describe() const {
 	std::string s;
 	switch (kind) {
 	case RESP: {
-		static const char *rn[] = {"result:true", "daemon-error", "result==", "error==", "result|error", "any-result", "get-set", "error|get-set"};
+		static const char *rn[] = {"result:true", "daemon-error", "result==", "error==", "result|error", "any-result", "get-set", "error|get-set", "result:true|error (delivery to a faulty peer)"};
 		s = "RESP id=" + id.dump() + " " + rn[rk];
 		if (rk == R_RESULT_EQ || rk == R_ERROR_EQ || rk == R_GETSET || rk == R_ERR_OR_GETSET) s += payload.dump();
 		break; }
@@ -149,6 +149,7 @@ void Model::notify(const Elem &e, const char *event, int only_peer, const JV *on
 				if (ev == "remove") f.reported.erase(e.path);
 			}
 			if (!send) continue;
+			if (!host->observable(p.c)) notify_hit_unobservable = true;
 			Exp x; x.kind = Exp::NOTIFY; x.fetchid = f.id; x.event = ev; x.path = e.path; x.prop = notify_prop;
 			x.has_value = e.is_state; x.value = e.value; x.check_value = e.is_state && ev != "remove";
 			x.group = group_ctr; x.rank = rank; x.why = ev + " of " + e.path;
@@ -214,11 +215,13 @@ bool Model::do_add(int c, const JV &req, const JV &params) {
 	e.cg = group_names(access, "callGroups", all_groups);
 	if (path->s.empty()) host->probe("empty_path");
 	bool either = allow_either_add && (long)elems.size() >= (1L << (g_variant.element_order - 1));
-	if (add_local_only) { either = true; host->probe("add_from_local_origin"); } // the statement only says add is accepted *only* from local origins: a local origin may still be refused
+	if (add_local_only) { either = true; host->probe("add_from_local_origin"); }
+	if (faulty_add_either && !host->observable(c)) { either = true; host->probe("add_by_faulty_peer"); }   // the add of a peer that cannot be served may fail on its own notification; what the others are told decides // the statement only says add is accepted *only* from local origins: a local origin may still be refused
 	elems[e.path] = e;
 	if (!either) {
+		notify_hit_unobservable = false;
 		notify(e, "add");
-		respond(c, req, Exp::R_TRUE, "C04", "add of free path " + e.path);
+		respond(c, req, notify_hit_unobservable ? Exp::R_OK_OR_ERR : Exp::R_TRUE, "C04", "add of free path " + e.path);
 		return true;
 	}
 	// capacity reached: the daemon may refuse with an internal error; follow its answer
@@ -256,6 +259,7 @@ bool Model::do_add(int c, const JV &req, const JV &params) {
 	} else {
 		host->harness_error("add without id at the capacity bound is not decidable from outside; the generator must not produce it");
 	}
+	if (faulty_add_either && !host->observable(c)) decisions[d].silent_refusal = true;
 	return true;
 }
 
@@ -267,8 +271,9 @@ bool Model::do_remove(int c, const JV &req, const JV &params) {
 		if (it != elems.end()) host->probe("remove_not_owner");
 		respond(c, req, Exp::R_ERR_DAEMON, "C04", "remove of foreign/unknown path"); return true;
 	}
+	notify_hit_unobservable = false;
 	remove_elem(path->s);
-	respond(c, req, Exp::R_TRUE, "C04", "remove by owner");
+	respond(c, req, notify_hit_unobservable ? Exp::R_OK_OR_ERR : Exp::R_TRUE, "C04", "remove by owner");
 	return true;
 }
 
@@ -282,8 +287,9 @@ bool Model::do_change(int c, const JV &req, const JV &params) {
 	if (it->second.owner != c) { host->probe("change_not_owner"); respond(c, req, Exp::R_ERR_DAEMON, "C04", "change by non-owner"); return true; }
 	if (!it->second.is_state) { host->probe("change_on_method"); respond(c, req, Exp::R_ERR_DAEMON, "C04", "change on method"); return true; }
 	it->second.value = *v;
+	notify_hit_unobservable = false;
 	notify(it->second, "change");
-	respond(c, req, Exp::R_TRUE, "C04", "change by owner");
+	respond(c, req, notify_hit_unobservable ? Exp::R_OK_OR_ERR : Exp::R_TRUE, "C04", "change by owner");
 	return true;
 }
 
@@ -320,7 +326,8 @@ bool Model::do_setcall(int c, const JV &req, const JV &params, bool is_call) {
 	else { r.params = JV::obj(); r.params.set("value", *val); }
 	int ref = (int)routed.size();
 	int inflight = 0; for (auto &x : routed) if (x.state == 0 && x.owner == e.owner) inflight++;
-	bool either = (allow_either_route && inflight >= (1 << (g_variant.routing_order - 1))) || route_may_fail;
+	bool either = (allow_either_route && inflight >= (1 << (g_variant.routing_order - 1))) || route_may_fail || !host->observable(e.owner);
+	if (!host->observable(e.owner)) host->probe("routed_to_faulty_owner");
 	routed.push_back(r);
 	host->probe(std::string("timeout_precedence:") + tprec);
 	if (c == e.owner) host->probe("self_routed");
@@ -329,7 +336,7 @@ bool Model::do_setcall(int c, const JV &req, const JV &params, bool is_call) {
 	if (!either) { host->expect(e.owner, x); return true; }
 	host->probe("routing_table_full_possible");
 	int d = (int)decisions.size();
-	Decision dec; dec.what = "route at capacity";
+	Decision dec; dec.what = "route at capacity#" + std::to_string(ref);
 	dec.commit = [this, ref](bool ok) { if (!ok) { routed[ref].state = 5; host->probe("routing_table_full"); } };
 	dec.silent_refusal = !r.has_id || !host->observable(c); // a caller without id (or one that is gone) is told nothing: absence of the routed frame is the refusal
 	if (!host->observable(e.owner) && host->observable(c) && r.has_id) { dec.silent_refusal = false; dec.silent_accept = true; } // owner's stream cannot be observed: absence of a refusal is the acceptance
@@ -575,6 +582,19 @@ void Model::on_routed_seen(int ref, const std::string &rid) {
 	for (auto &o : routed) if (o.state == 0 && o.rid_known && o.rid == rid && &o != &r)
 		host->violation("C03", "routed-id-not-unique", "routed request id " + rid + " reused while in flight");
 	r.rid = rid; r.rid_known = true;
+}
+
+void Model::on_routed_observed(int owner, const std::string &path, const JV *params, const std::string &rid) {
+	for (size_t i = 0; i < routed.size(); i++) {
+		Routed &r = routed[i];
+		if (r.owner != owner || r.rid_known || r.path != path) continue;
+		if (r.state != 0 && r.state != 2) continue;
+		if (params && !json_equal(*params, r.params)) continue;
+		on_routed_seen((int)i, rid);
+		// the daemon did accept the request for routing
+		for (size_t d = 0; d < decisions.size(); d++) if (decisions[d].state == 0 && decisions[d].what == "route at capacity#" + std::to_string(i)) resolve_decision((int)d, true);
+		return;
+	}
 }
 
 void Model::on_timer_armed(int fd, uint64_t ns) {
